@@ -118,7 +118,11 @@ func runWorker(id, tier string, lo, hi int, out string) int {
 		}
 	}
 	start := time.Now()
-	debug.SetGCPercent(400)
+	gcp := 400
+	if v, err := strconv.Atoi(os.Getenv("VERIF_GOGC")); err == nil {
+		gcp = v
+	}
+	debug.SetGCPercent(gcp)
 	if a := os.Getenv("VERIF_ANNOUNCE"); a != "" {
 		if f, err := os.Create(a); err == nil {
 			explore.Announce = func(s string) {
